@@ -96,8 +96,9 @@ def leg(ctx, binp, tool, corr_broken):
                            (regen, CLIENTS.get(regen, "untranslatable / tie not built"), probe, CLIENTS.get(probe, "?"),
                             " / ".join(CLIENTS[k] for k in ACCEPTED)))
     # the model is the TRANSLATED client of this tree, whatever the harness probed (the op carries the probe); if the
-    # translation is not an accepted one the model of the committed client (F45) is the reference
-    mclient = regen if regen in ACCEPTED else ACCEPTED[0]
+    # translation is not an accepted one (the tie is broken anyway) the reference is the accepted client the binary behaves
+    # as, else the committed one (F45)
+    mclient = regen if regen in ACCEPTED else (probe if probe in ACCEPTED else ACCEPTED[0])
     mops = os.path.join(out, name + ".model.ops")
     with open(mops, "w") as fh:
         for o in ops:
@@ -127,7 +128,8 @@ def leg(ctx, binp, tool, corr_broken):
         ctx.count_case(o + "|" + i, nontrivial=len(reqs) > 0)
         if any(q[1] != ("POST" if post else "GET") for q in reqs):
             changed_method.append((o, i))
-        longest = max(longest, len(reqs) // (naddr if mode == "all" and resp == "fin" else 1))
+        if len(reqs) > 10 * (naddr if mode == "all" else 1):
+            longest = max(longest, len(reqs))
         if resp != "fin":
             continue
         meth = "POST" if post else "GET"
@@ -169,9 +171,9 @@ def leg(ctx, binp, tool, corr_broken):
         corr_broken.append("redirect leg: the client of this tree sent %d request(s) with another method than the publisher's "
                            "(a redirect that changes the method was followed), e.g. `%s` -> %s" %
                            (len(changed_method), changed_method[0][0][:160], changed_method[0][1][:200]))
-    if longest > 10 * 2:
-        corr_broken.append("redirect leg: %d requests for one Publish (the limit is ten)" % longest)
-    ctx.corr[name] = {"requests_with_changed_method": len(changed_method), "longest_wire": longest, "client_probe": probe, "client_translated": regen, "client_name": CLIENTS.get(regen), "lines": len(ops),
+    if longest:
+        corr_broken.append("redirect leg: %d requests for one handling (the limit is ten per Publish)" % longest)
+    ctx.corr[name] = {"requests_with_changed_method": len(changed_method), "over_limit_wire": longest, "client_probe": probe, "client_translated": regen, "client_name": CLIENTS.get(regen), "lines": len(ops),
                       "fin_without_delivery": nfind, "get_fin_by_queryless_redirect": nqueryless,
                       "histogram": hist, "oracle": [l for l in log.splitlines() if l.startswith("ORACLE-DONE")]}
     if ops:
